@@ -50,9 +50,7 @@ M = [
     ("m05i", "C05", PT, "        if self._entries[-1].time > self.maxTimestamp:\n            self.maxTimestamp = self._entries[-1].time\n", "",
      "revert of fix (half): PointTier.insertEntry does not grow maxTimestamp"),
     ("m05j", "C05", PT, "    processedEntries.sort()\n    return processedEntries", "    return processedEntries",
-     "point constructor does not sort (base class still does)"),
-    ("m05k", "C05", TT, "        entries.sort()\n\n        self.name = name", "        self.name = name",
-     "base constructor does not sort"),
+     "no sorting at all in the point constructor path (see EXTRA: base class sort removed too)"),
     # ------------------------------------------------------------------ C11
     ("m11a", "C11", IT, '"-".join([tmpInterval.label for tmpInterval in matchList]),',
      '"-".join([tmpInterval.label for tmpInterval in reversed(matchList)]),', "merge label reversed"),
@@ -167,6 +165,7 @@ M = [
 ]
 
 EXTRA = {
+    "m05j": [(TT, "        entries.sort()\n\n        self.name = name", "        self.name = name")],
     # m13f needs the in-place sort as a second site
     "m13f": [(IO, '        tier["entries"] = sorted(tier["entries"])', '        tier["entries"].sort()')],
 }
